@@ -467,6 +467,29 @@ S4_MORE["C20"] += (" plot_azimuthal_contour_3d: one surface over the mesh helper
 S4_MORE["C20"] += (" plot_voronoi: one filled polygon per tessellation cell in order - its own outline, the colour of the sensor value with the same index on a scale from the smallest to "
                   "the largest value -, the sensors at their coordinates, the boundary closed by its first point.")
 S4_MORE["C03"] += " HvsrTraditional.from_hvsr_curves: row i of the table handed to the constructor is entry i's curve, frequencies of the first entry, an entry not similar to the first refused."
+_R56 = {
+ "C01": "centre frequencies in any order (descending, shuffled); the same recording objects processed a second time with another method, compared with the curves of the pristine samples",
+ "C02": "frequency axes that are not equally spaced; samples that are exactly zero in every row, unit impulses; a window whose only sample lies 4e-7 .. 8e-7 inside its edge",
+ "C03": "the same recording twice in a list (not adjacent), recordings with amplitudes around 1e-9",
+ "C04": "percentiles below 1 and 99; several sensors with different deployments in one preprocess call (the one on target first / last / in between)",
+ "C05": "time-domain rejections with the object attached as history steps (masks read as truth values, must equal the selection returned); options dictionary edited by the caller between two searches",
+ "C06": "every spelling DISTRIBUTION_MAP declares; azimuthal FDWRA after a keep-everything time-domain rejection; a dead band (exact zeros) under the lognormal mean curve",
+ "C07": "per-recording lists with None entries; NaN-aware comparisons; integer counts beyond 2**24; the binary formats as in-memory streams",
+ "C08": "mean-curve peak after the accepted set changed by a manual or time-domain rejection; the same range on axes of equal length and end points; originals independent of the azimuthal object built from them",
+ "C09": "user FFT lengths below / at / above the library's power of two, three runs, metadata compared; recordings on a DC offset",
+ "C10": "records of a whole number of windows; recordings the user has already turned; exact quarter turns in both directions",
+ "C11": "an exact zero in an accepted window (other frequencies compared); exactly agreeing windows (standard deviation 0, covariance diagonal = std^2)",
+ "C12": "deep troughs, a long-period band, amplitudes scaled by 1e-6 .. 3e-20",
+ "C13": "a lower limit of 0; a kept and a rejected window exchange their samples in place, same call again",
+ "C14": "small rectangular sites translated to UTM-like coordinates (found F-20)",
+ "C15": "azimuth lists in any order with repeats; sequences of length one (one azimuth, one centre frequency)",
+ "C16": "the same arrays rewritten in place with another curve and assessed again",
+ "C17": "user FFT lengths incl. odd ones in psd_preprocess; recordings of 20000 / 40000 / 25000 samples in all six orders; negative flat gain",
+ "C19": "SEED-style file names with several dots and a common first token",
+ "C20": "the configuration that makes the all-accepted panel raise is checked to raise",
+}
+for _k, _v in _R56.items():
+    S4_MORE[_k] = (S4_MORE.get(_k, "") + " Bounded additions after the fifth and sixth rounds of seeded changes: " + _v + ".").strip()
 for _k, _v in S4_MORE.items():
     S4[_k] = ((S4[_k][0] + " " + _v,) + tuple(S4[_k][1:])) if _k in S4 else (_v, None, None)
 for _pid, (_t, _n, _tech) in S4.items():
